@@ -25,7 +25,10 @@ pub const FAMILIES: &[(&str, &[&str])] = &[
     ("meta", &["<meta charset=utf-8>", "<meta http-equiv=content-type content=\"text/html; charset=x\">", "<meta content=\"charset=y\" http-equiv=Content-Type>",
                "<meta http-equiv=refresh content=\"charset=z\">", "<meta>", "<head>", "</head>", "<body>", "<table>", "<template>", "<select>", "<svg>",
                "<noscript>", "<frameset>", "</body>", "<caption>", "<td>", "<title>", "</title>", "<math>", "<foreignObject>", "</template>", "x", "<script>", "</script>",
-               "<meta charset>", "<META CHARSET=\"a b\" charset=c>", "<p>", "</html>"]),
+               "<meta charset>", "<META CHARSET=\"a b\" charset=c>", "<p>", "</html>",
+               "<link charset=utf-8>", "<base charset=x>", "<bgsound http-equiv=content-type content=\"charset=y\">", "<basefont charset=z>"]),
+    ("forms", &["<input>", "<button>", "<select>", "<textarea>", "</textarea>", "<img>", "<fieldset>", "<object>", "<output>", "<label>", "<form>", "</form>",
+                "<div>", "</div>", "<table>", "<td>", "x", "<keygen>", "</select>", "</button>", "<template>", "</template>", "<input form=f>", "<b>", "</b>", "<p>"]),
     ("misc", &["<!DOCTYPE html>", "<!DOCTYPE x>", "<!-- c -->", "<?pi?>", "</>", "<a b=c b=d>", "<div id=1 id=2>", "\r\n", "\0", "&lt;", "<html>", "<body>",
                "<wbr>", "<area>", "<param>", "<source>", "<track>", "<embed>", "<img>", "<bgsound>", "x", "<nobr>", "<a>", "<table>", "<xmp>"]),
 ];
@@ -169,10 +172,11 @@ pub fn main(args: &Args) {
                             run(c, &mut out, &mut cr);
                         }
                         if len <= 2 {
-                            for (ns, local) in CONTEXTS {
+                            for (ci, (ns, local)) in CONTEXTS.iter().enumerate() {
                                 let mut c = base_case(&s);
                                 c["mode"] = json!("frag");
                                 c["ctx"] = json!({"ns":ns,"local":cps(local),"attrs":[]});
+                                c["form_owner"] = json!(ci % 3 == 0);
                                 run(c, &mut out, &mut cr);
                             }
                         }
@@ -190,6 +194,7 @@ pub fn main(args: &Args) {
                     let (ns, local) = *r.pick(CONTEXTS);
                     c["mode"] = json!("frag");
                     c["ctx"] = json!({"ns":ns,"local":cps(local),"attrs":[]});
+                    c["form_owner"] = json!(r.chance(1, 2));
                 }
                 c["scripting"] = json!(r.chance(2, 3));
                 if r.chance(1, 10) {
